@@ -64,6 +64,15 @@ var (
 	poolMu chan struct{} = make(chan struct{}, 1)
 )
 
+// run executes one model thread; if it leaves through runtime.Goexit the worker goroutine dies
+// with it (the pool simply creates another one later), the join edge is still declared.
+//
+//go:norace
+func (w *poolWorker) run(f func()) {
+	defer runtime.RaceReleaseMerge(unsafe.Pointer(&joinTok))
+	f()
+}
+
 //go:norace
 func (w *poolWorker) loop() {
 	for {
@@ -71,8 +80,7 @@ func (w *poolWorker) loop() {
 		f := <-w.work
 		runtime.RaceEnable()
 		runtime.RaceAcquire(unsafe.Pointer(&w.tok))
-		f()
-		runtime.RaceReleaseMerge(unsafe.Pointer(&joinTok))
+		w.run(f)
 		runtime.RaceDisable()
 		poolMu <- struct{}{}
 		idle = append(idle, w)
